@@ -406,6 +406,46 @@ def mutants(r, S):
         e["attrs"].append({"name": a["name"], "type": "INTEGER", "optional": False})
         return ("inherited_attribute_redeclared", "%s declares %s again" % (e["name"], a["name"]), {"quoted": a["name"]})
 
+    def subtype_not_listing_second(T):
+        # as above, but the faulty subtype comes after one that does declare the supertype
+        names_ = [q["name"] for q in T.entities]
+        cands = [a for a in T.entities if any(a["name"] in q["supers"] for q in T.entities)]
+        if not cands:
+            return None
+        a = r.choice(cands)
+        proper = [q["name"] for q in T.entities if a["name"] in q["supers"]]
+
+        def ancestors(x, seen=None):
+            seen = seen or set()
+            for s_ in T.entity(x)["supers"]:
+                if s_ not in seen and s_ in names_:
+                    seen.add(s_)
+                    ancestors(s_, seen)
+            return seen
+        others = [b for b in T.entities if b["name"] != a["name"] and a["name"] not in b["supers"] and b["name"] not in ancestors(a["name"])]
+        if not others:
+            return None
+        b = r.choice(others)
+        a["supexpr"] = "ONEOF (%s, %s)" % (proper[0], b["name"])
+        return ("subtype_not_listing_supertype", "%s SUPERTYPE OF (ONEOF (%s, %s)) but %s is not SUBTYPE OF it" % (a["name"], proper[0], b["name"], b["name"]),
+                {"quoted": b["name"]})
+
+    def inherited_redeclared_indirect(T):
+        # the attribute comes from a supertype two or more levels up
+        cands = []
+        for e in T.entities:
+            for s1 in e["supers"]:
+                for s2 in T.entity(s1)["supers"]:
+                    anc = T.entity(s2)
+                    for a in anc["attrs"]:
+                        if all(a["name"] != x["name"] for x in T.entity(s1)["attrs"]):
+                            cands.append((e, a))
+        if not cands:
+            return None
+        e, a = r.choice(cands)
+        e["attrs"].append({"name": a["name"], "type": "INTEGER", "optional": False})
+        return ("inherited_attribute_redeclared", "%s declares %s again (inherited from two levels up)" % (e["name"], a["name"]), {"quoted": a["name"]})
+
     def bad_inverse(T):
         es = [e for e in T.entities if e["inverse"]]
         if es:
@@ -419,7 +459,7 @@ def mutants(r, S):
 
     for fn in (undefined_type, undefined_supertype, undefined_subtype, undefined_schema, undefined_function, undefined_attr,
                duplicate_decl, duplicate_entity, duplicate_attr, subtype_cycle, select_cycle, subtype_not_listing,
-               inherited_redeclared, bad_inverse):
+               subtype_not_listing_second, inherited_redeclared, inherited_redeclared_indirect, bad_inverse):
         variant(fn)
     # syntax errors: textual edits of the valid schema
     base = render(S)
